@@ -1,6 +1,6 @@
 (* wire encoding of C09 cases; exported functions are [x_*] : val -> val *)
 From Coq Require Import ZArith List Bool.
-From V Require Import Val Bytes C09Adts C09TsFrame C09TsWriter C09TsDemux.
+From V Require Import Val Bytes C09Adts C09TsFrame C09TsWriter C09TsDemux C09TsHls.
 Import ListNotations.
 Open Scope Z_scope.
 
@@ -71,3 +71,18 @@ Definition x_C09_mux_prefix (c : val) : val :=
 Definition x_C09_adts (c : val) : val :=
   VB (adts_header (as_int (nthv 0 c)) (as_int (nthv 1 c)) (as_int (nthv 2 c)) (as_int (nthv 3 c))).
 Definition x_C09_crc (c : val) : val := VI (crc32_mpeg (as_bytes c)).
+
+(* HLS path.  case = (0 sps pps asc frames fragment rate); the generator ends every case with
+   [non-key, key, non-key, key] video frames far enough apart to close two segments, so
+   that every source frame but the very last key frame is in a closed segment.
+   observation = (0 (segment bytes ...)) *)
+Definition x_C09_hls_ok (v : val) : val :=
+  let c := nthv 0 v in let obs := nthv 1 v in
+  let fs := c09_cframes c in
+  let vids := removelast (filter (fun f => c_video f && src_carried f) fs) in
+  let auds := filter (fun f => negb (c_video f) && src_carried f) fs in
+  vbool (match obs with
+         | VL [VI 0; VL segs] =>
+             ok_hls (as_bytes (nthv 1 c)) (as_bytes (nthv 2 c)) (c09_asc c) vids auds (map as_bytes segs)
+         | _ => false
+         end).
